@@ -150,6 +150,12 @@ func (t *Trailer) CopyTo(dst *Trailer) {
 
 func (t *Trailer) SetTrailers(trailers []byte) (err error) {
 	t.ResetSkipNormalize()
+	return t.AddTrailers(trailers)
+}
+
+// AddTrailers announces further trailer names (a message may carry several Trailer lines:
+// together they are one list).
+func (t *Trailer) AddTrailers(trailers []byte) (err error) {
 	for i := -1; i+1 < len(trailers); {
 		trailers = trailers[i+1:]
 		i = bytes.IndexByte(trailers, ',')
